@@ -148,9 +148,11 @@ func matchViaAllow(pattern, name string) bool {
 
 // c17SameName: an artifact that is spelled exactly like the pattern of a rule is an artifact like any
 // other - the pattern stays a pattern. Products {<pattern as a name>, <another name>} under
-//   ALLOW <pattern>; DISALLOW <the other name>      accepted iff the pattern matches the other name
-//   ALLOW <pattern>; DISALLOW *                     accepted iff it matches both names
-//   DISALLOW <pattern>; ALLOW *   on {<pattern>}    accepted iff it does not match its own spelling
+//
+//	ALLOW <pattern>; DISALLOW <the other name>      accepted iff the pattern matches the other name
+//	ALLOW <pattern>; DISALLOW *                     accepted iff it matches both names
+//	DISALLOW <pattern>; ALLOW *   on {<pattern>}    accepted iff it does not match its own spelling
+//
 // for a catalogue of patterns with wildcards, classes, escapes and malformed ones, and for token-based
 // random patterns.
 func c17SameName(c *core.Ctx, letters []string) {
